@@ -354,7 +354,10 @@ func (a gAtom) eval(r Map, c1, c2 float64) bool {
 // numeric columns and a nullable one.
 func H_C01_grammar() {
 	n := verif.Choose("rows", 2+verif.Tier())
-	shape := verif.Choose("shape", 4+verif.Tier()) // three-atom shapes in the thorough tier
+	shape := verif.Choose("shape", 4+verif.Tier()) // three-atom shapes in the thorough tier (on 0..1 rows)
+	if shape == 4 && n > 1 {
+		verif.Assume(false)
+	}
 	a1 := genAtom("p")
 	var a2, a3 gAtom
 	con1, con2 := 0, 0
